@@ -413,6 +413,12 @@ class Driver:
                         c.ext = list(c.ext) + [n0]; variants.append(('different ext', c))
                     if list(v.edges()):
                         c = v.copy(); c.remove_edge(list(c.edges())[0]); variants.append(('edge removed', c))
+                    # the same node id carrying another label (an isolated node, so that nothing else differs)
+                    iso_ = [n for n in v.nodes() if n.persist_id and n not in v.ext and not any(n in e.nodes for e in v.edges())]
+                    if iso_:
+                        n0 = iso_[0]
+                        c = v.copy(); c.remove_node(n0)
+                        c.add_node(f.Node(self.NL[1] if n0.label == self.NL[0] else self.NL[0], id=n0.id)); variants.append(('an isolated node relabelled', c))
                 else:
                     g = f.Graph(); g.new_node('A')
                     c = v.copy(); c.new_rule('FreshNT', g); variants.append(('extra rule', c))
